@@ -117,3 +117,19 @@ class C01(E1Prop):
                 H("prop_C01_morton_portable", "prop_C01.cpp", shards=7, defines=["VF_GROUP=2"], flags=core.SAN + ["-mbmi2"]),
                 H("prop_C01_morton_portable_else", "prop_C01.cpp", shards=7, defines=["VF_GROUP=2"]),
                 H("prop_C01_hilbert", "prop_C01.cpp", shards=4, defines=["VF_GROUP=3"])]
+
+
+@prop("C04")
+class C04(E1Prop):
+    pid = "C04"
+    rule = ("cases = real coordinates for nearest_neighbour over identity<long^N> (returns the chosen lattice point; magnitudes around 0, 2^23, 2^24, "
+            "2^52, 2^53, negative) and over strided<array> storing each cell's own rank (extents 1..40), N in 1..4, coordinate scalar float and double; "
+            "per axis: half-integer +- 0..2 ulp, integer +- 0..2 ulp, random k/1024 offsets, kept inside the open domain (-1/2, extent-1/2); 1-D "
+            "boundary sets enumerated completely. Oracle: |p_k - x_k| <= 1/2 in long double for every component of the lattice point actually read. "
+            "non-trivial = some component within 4 ulp of a half-integer (or a double beyond single precision); distinct by coordinate bits")
+    min_eval = 20000
+    level_text = ("Generated-input search with boundary-directed generators (one ulp either side of every half-integer) and an exact long-double distance "
+                  "oracle; complete enumeration of the 1-D boundary sets, sampling in higher dimensions.")
+
+    def harnesses(self, tier):
+        return [H("prop_C04", "prop_C04.cpp", shards=8)]
